@@ -124,8 +124,15 @@ func e4OracleC02(r *e4Result) string {
 		if !consumed {
 			continue
 		}
+		idStillOurs := true // a later message may legitimately be given the same identifier (every connection has its own counter)
 		for _, l := range r.Log {
 			if l.Seq <= e.Seq || !e4Emitted(l) {
+				continue
+			}
+			if l.Pkt.Type == rtPublish && l.Pkt.ID == e.Pkt.ID && vTagOf(*l.Pkt) != e.Note {
+				idStillOurs = false
+			}
+			if l.Pkt.Type == rtPubRel && !idStillOurs {
 				continue
 			}
 			if l.Pkt.Type == rtPublish && vTagOf(*l.Pkt) == e.Note {
